@@ -49,7 +49,7 @@ func genC14(t *rapid.T) CrashCase {
 	if vt.Chance(t, "failingInstances", 30) {
 		c.FailStartMod = rapid.SampledFrom([]int{1, 2, 2, 3}).Draw(t, "failStartMod")
 	}
-	c.All = vt.Tier() == "thorough" && vt.Chance(t, "allSteps", 20)
+	c.All = vt.Tier() == "thorough" && vt.Chance(t, "allSteps", 2) // every crash position of one deployment: ~200 crash/recover rounds
 	return c
 }
 
